@@ -25,10 +25,11 @@ RULE = ('worlds of 2-3 tables over one content from tables.rand_spec (dims 1..4,
         'alphabets), each built by a different route {16 constructor input forms incl. caller CSR/CSC with stored zeros and '
         'unsorted indices, sort_order then inverse, filter keeping everything (ids / predicate), subsample at full depth, '
         'transpose twice, copy, column/row access, nnz, and (30%) a CSR/CSC matrix with stored zeros / unsorted indices put in place directly}; in half of the worlds one table differs in exactly one value / id / '
-        'order of two ids / metadata entry / presence of metadata / type; programs of 3-10 steps over {nnz, row/column '
+        'order of two ids / metadata entry (changed value, category on one side only, category missing, entry {} on one side) / '
+        'presence of metadata / type; programs of 3-10 steps over {nnz, row/column '
         'access, iter, t[i,j], plain reads, ==, !=, descriptive_equality in both directions and on one object, copy}; '
         'compared with the model: every verdict, every returned nnz, and format/indptr/indices/data of every touched table '
-        'after every step; for equal-content pairs to_tsv text, json.loads(to_json) and the raw h5py dump of to_hdf5; '
+        'after every step; every ordered pair is compared at the end and symmetry is checked on unequal pairs too; for equal-content pairs to_tsv text, json.loads(to_json) and the raw h5py dump of to_hdf5; '
         'non-trivial = at least two tables with different initial (format, sortedness, stored zeros) or a one-difference '
         'pair, and at least one comparison preceded by a representation-changing accessor; distinct by case hash')
 TRUSTED = ['hand-written model coq/Model/Equality.v tied to biom/table.py and to scipy (tocsr/tocsc/eliminate_zeros/'
@@ -389,7 +390,8 @@ def _run_impl(c):
     pairs = [[int(contents[i] == contents[j]) for j in range(n0)] for i in range(n0)]
     out = ['ok', coh, trace, pairs]
     if c.get('exports'):
-        ex = [exports(t) for t in w[:n0]]
+        need = {i for i in range(n0) for j in range(n0) if i != j and pairs[i][j]}
+        ex = [exports(w[i]) if i in need else None for i in range(n0)]
         out.append([[i, j] + [int(ex[i][k] == ex[j][k]) for k in ('tsv', 'json', 'hdf5')]
                     for i in range(n0) for j in range(i + 1, n0) if pairs[i][j]])
     return out
@@ -511,15 +513,30 @@ def rand_mut(rng, spec):
     ax, n = ('omd', r) if k == 'omd' else ('smd', c)
     md = copy.deepcopy(spec[ax])
     if md is None:
-        # metadata present on one side only (the HDF5 writer wants one key set for all ids)
-        md = [{'extra': 'v%d' % rng.randint(0, 1)} for _ in range(n)]
-    else:
-        i = rng.randrange(n)
-        key = rng.choice(sorted(md[i]))
-        md[i] = dict(md[i])
-        old = md[i][key]
+        # metadata present on one side only; sometimes on a single id (the other entries stay {})
+        if rng.random() < 0.5:
+            md = [{'extra': 'v%d' % rng.randint(0, 1)} for _ in range(n)]
+        else:
+            md = [{} for _ in range(n)]
+            md[rng.randrange(n)] = {'extra': 'v'}
+        return [ax, md, 'presence']
+    i = rng.randrange(n)
+    how = rng.choice(['value', 'value', 'extra_key', 'extra_key', 'del_key', 'empty_entry'])
+    md[i] = dict(md[i])
+    if how == 'value' or not md[i]:
+        key = rng.choice(sorted(md[i])) if md[i] else 'extra'
+        old = md[i].get(key)
         md[i][key] = (old + ['x__changed']) if isinstance(old, list) else 'changed-%s' % (old,)
-    return [ax, md]
+    elif how == 'extra_key':
+        # one more category on one id only: the key SETS differ, every shared category agrees
+        md[i]['zz_extra'] = rng.choice(['gut', 7, ['a', 'b']])
+    elif how == 'del_key':
+        md[i].pop(rng.choice(sorted(md[i])))
+    else:
+        md[i] = {}
+    if not any(md):
+        return [ax, None, 'presence']   # all-empty metadata IS no metadata: still one difference
+    return [ax, md, how if md[i] or how == 'empty_entry' else 'value']
 
 
 def rand_prog(rng, n_tables, r, c, length):
@@ -601,6 +618,16 @@ def oracle(c, obs):
                 what = 'equal content built through %s and %s' % (c['tables'][i]['route'], c['tables'][j]['route']) if eq \
                     else 'contents differing in exactly %s' % (c['tables'][i].get('mut') or c['tables'][j].get('mut'),)
                 fails.append('%s of tables %d,%d (%s) answered %s' % (how, o[1], o[2], what, ob[0]))
+    # symmetry, on equal and on unequal pairs alike: the verdicts of (i, j) and (j, i) seen in the closing block
+    last = {}
+    for o, ob in zip(c['prog'], trace):
+        if o[0] == 'cmp':
+            eqv = {'eq': bool(ob[0]), 'ne': not ob[0], 'desc': ob[0] == 0}[o[3]]
+            last[(o[1], o[2])] = eqv
+    for (i, j), v in sorted(last.items()):
+        if i < j and (j, i) in last and last[(j, i)] != v:
+            fails.append('equality is not symmetric: tables %d,%d compare %s one way and %s the other'
+                         % (i, j, 'equal' if v else 'unequal', 'equal' if last[(j, i)] else 'unequal'))
     if c.get('exports') and len(obs) > 4:
         for i, j, tsv, js, h5 in obs[4]:
             for name, okk in (('to_tsv', tsv), ('to_json', js), ('to_hdf5', h5)):
@@ -634,6 +661,8 @@ def classify(c):
             tags.append('history:' + (s[0] if isinstance(s, list) else s))
         if t.get('mut'):
             tags.append('diff:' + t['mut'][0])
+            if t['mut'][0] in ('omd', 'smd') and len(t['mut']) > 2:
+                tags.append('mddiff:' + t['mut'][2])
     if not any(t.get('mut') for t in c['tables']):
         tags.append('diff:none')
     for o in c['prog']:
